@@ -677,6 +677,28 @@ fn brief_chain_k(_case: &Value, inputs: &Value) -> Value {
     }
 }
 
+// classic optimize_sexp on a CLVM program: value before and after, judged by clvmr
+fn classic_optimize_k(_case: &Value, inputs: &Value) -> Value {
+    use chialisp::classic::clvm_tools::stages::stage_0::TRunProgram;
+    let mut a = Allocator::new();
+    let p = json_to_tree(&mut a, &inputs["prog"]);
+    let e = json_to_tree(&mut a, &inputs["env"]);
+    let runner = Rc::new(DefaultProgramRunner::new());
+    let before = match runner.run_program(&mut a, p, e, None) {
+        Ok(r) => json!({"ok": tree_to_json(&a, r.1)}),
+        Err(_) => json!({"err": true}),
+    };
+    let ot = match optimize_sexp(&mut a, p, runner.clone()) {
+        Ok(o) => o,
+        Err(_) => return json!({"before": before, "after": {"err": true}, "rejected": true}),
+    };
+    let after = match runner.run_program(&mut a, ot, e, None) {
+        Ok(r) => json!({"ok": tree_to_json(&a, r.1)}),
+        Err(_) => json!({"err": true}),
+    };
+    json!({"before": before, "optimized": tree_to_json(&a, ot), "after": after})
+}
+
 // assemble(text) -> tree (used to evaluate constant patterns natively)
 fn assemble_k(_case: &Value, inputs: &Value) -> Value {
     let mut a = Allocator::new();
@@ -691,6 +713,7 @@ pub fn dispatch(kernel: &str, case: &Value, inputs: &Value) -> Value {
         "assemble" => assemble_k(case, inputs),
         "int_from_bytes" => int_from_bytes_k(case, inputs),
         "decode" => decode_k(case, inputs),
+        "classic_optimize" => classic_optimize_k(case, inputs),
         "brief_chain" => brief_chain_k(case, inputs),
         "output_optimize" => output_optimize_k(case, inputs),
         "run_both_tree" => run_both_tree_k(case, inputs),
